@@ -57,7 +57,7 @@ package lq
 //@ func (*LQClient).Delete
 //@   property C15
 //@   requires globalLQ != nil && globalLQ.client != nil && globalLQ.client.dbWrite != nil && globalLQ.client.dbWriteSqlc != nil
-//@   modifies dbDelN, dbDelID, sqlCommits, sqlBegun, sqlCommitTried
+//@   modifies dbDelN, dbDelID, sqlCommits, sqlBegun, sqlCommitTried, dbLastSQL
 //@   let dels0 = sqlc_model.nDeletes()
 //@   let commits0 = sql.nCommits()
 //@   loop range invariant [offered] -1 <= rangeindex && rangeindex < len(urls) && sqlc_model.nDeletes() == dels0 + rangeindex + 1 && sql.nCommits() == commits0
@@ -70,14 +70,15 @@ package lq
 //@ func (*LQClient).Get
 //@   property C15
 //@   requires globalLQ != nil && globalLQ.client != nil && globalLQ.client.dbWrite != nil && globalLQ.client.dbWriteSqlc != nil
-//@   modifies dbClaimN, dbClaimID, dbFreshLimit, dbFreshArr, dbFreshLen, sqlCommits, sqlBegun, sqlCommitTried, mapof(dbHandedOut)
+//@   modifies dbClaimN, dbClaimID, dbFreshLimit, dbFreshArr, dbFreshLen, sqlCommits, sqlBegun, sqlCommitTried, mapof(dbHandedOut), dbLastSQL
 //@   let claims0 = sqlc_model.nClaims()
 //@   let commits0 = sql.nCommits()
 //@   loop range invariant [claimed] -1 <= rangeindex && rangeindex < len(freshUrls) && sqlc_model.nClaims() == claims0 + rangeindex + 1 && sql.nCommits() == commits0 && sqlc_model.lastFresh(freshUrls) && sqlc_model.lastFreshLimit() == int64(limit)
 //@   loop range invariant [by-id] rangeindex >= 0 ==> sqlc_model.lastClaimID() == freshUrls[rangeindex].ID
 //@   ensures [rows] result1 == nil ==> sqlc_model.lastFresh(result0) && sqlc_model.lastFreshLimit() == int64(limit) // C15: its hop count, which survives the round trip back into a seed (rows come back as stored)
 //@   ensures [all-claimed] result1 == nil ==> sqlc_model.nClaims() == claims0 + len(result0) && sql.nCommits() == commits0 + 1
-//@   ensures [error] result1 != nil ==> len(result0) == 0
+//@   ensures [error] @C15,C04 result1 != nil ==> len(result0) == 0 // C04: rows are handed to the pipeline only together with a committed claim
+//@   ensures [error-rolled-back] @C04 result1 != nil ==> sql.nCommits() == commits0 // C04: a failed Get commits no claim (no row stranded as handed-out by a batch that was never delivered)
 
 // ---------------------------------------------------------------------------------------
 // C15 (b): finisherReceiver - the acknowledgement row of a finished seed carries the seed's id,
@@ -106,7 +107,7 @@ package lq
 //@ func finisherSender
 //@   property C15
 //@   requires globalLQ != nil && globalLQ.client != nil && globalLQ.client.dbWrite != nil && globalLQ.client.dbWriteSqlc != nil && batch != nil
-//@   modifies dbDelN, dbDelID, sqlCommits, sqlBegun, sqlCommitTried
+//@   modifies dbDelN, dbDelID, sqlCommits, sqlBegun, sqlCommitTried, dbLastSQL
 //@   let urls0 = batch.URLs
 //@   let dels0 = sqlc_model.nDeletes()
 //@   let commits0 = sql.nCommits()
@@ -132,6 +133,10 @@ package lq
 // resetClaimed: one UPDATE statement; its SQL meaning is assumed here (every CLAIMED row becomes
 // FRESH when the statement succeeds), exactly like the generated query methods in sqlc_model.
 //@ func resetClaimed
+//@   property C04
 //@   opaque
-//@   modifies mapof(dbHandedOut)
-//@   ensures result == nil ==> forall(k, string, !sqlc_model.handedOut(k))
+//@   sweep idx
+//@   attr proved sql
+//@   modifies mapof(dbHandedOut), sqlLastExec, sqlExecs
+//@   ensures [sql] sql.nExecs() == old(sql.nExecs()) + 1 && sql.lastExec() == "UPDATE urls SET status = 'FRESH', timestamp = strftime('%s', 'now') WHERE status = 'CLAIMED'" // proved: the function issues exactly this one statement
+//@   ensures result == nil ==> forall(k, string, !sqlc_model.handedOut(k)) // assumed: what that statement means
